@@ -290,6 +290,11 @@ func (c *Client) Resume() error {
 	if c.PostResumeHook != nil {
 		err = c.PostResumeHook()
 	}
+
+	// Start the keepalive and the receiver go routines on the new connection, as Connect does
+	keepaliveQuit := make(chan struct{})
+	go keepalive(c.transport, c.config.KeepaliveInterval, keepaliveQuit)
+	go c.recv(keepaliveQuit)
 	return err
 }
 
